@@ -29,6 +29,8 @@
 #ifndef REALBPP
 #define REALBPP BPP
 #endif
+/* bytes of a CPIXEL: 2 for the 15-bit instance (REALBPP / 8 would give 1) */
+#define CPIXEL_BYTES ((REALBPP + 7) / 8)
 
 #if !defined(UNCOMP) || UNCOMP == 0
 #define HandleTRLE CONCAT2E(HandleTRLE, REALBPP)
@@ -53,7 +55,7 @@
 static rfbBool HandleTRLE(rfbClient *client, int rx, int ry, int rw, int rh) {
   int x, y, w, h;
   uint8_t type, last_type = 0;
-  int min_buffer_size = 16 * 16 * (REALBPP / 8) * 2;
+  int min_buffer_size = 16 * 16 * (CPIXEL_BYTES) * 2;
   uint8_t *buffer;
   CARDBPP palette[128];
   int bpp = 0, mask = 0, divider = 0;
@@ -93,14 +95,14 @@ static rfbBool HandleTRLE(rfbClient *client, int rx, int ry, int rw, int rh) {
 
       switch (type) {
       case 0: {
-        if (!ReadFromRFBServer(client, (char *)buffer, w * h * REALBPP / 8))
+        if (!ReadFromRFBServer(client, (char *)buffer, w * h * CPIXEL_BYTES))
           return FALSE;
 #if REALBPP != BPP
         int i, j;
 
         for (j = y * client->width; j < (y + h) * client->width;
              j += client->width)
-          for (i = x; i < x + w; i++, buffer += REALBPP / 8)
+          for (i = x; i < x + w; i++, buffer += CPIXEL_BYTES)
             ((CARDBPP *)client->frameBuffer)[j + i] = UncompressCPixel(buffer);
 #else
         client->GotBitmap(client, buffer, x, y, w, h);
@@ -109,7 +111,7 @@ static rfbBool HandleTRLE(rfbClient *client, int rx, int ry, int rw, int rh) {
         break;
       }
       case 1: {
-        if (!ReadFromRFBServer(client, (char *)buffer, REALBPP / 8))
+        if (!ReadFromRFBServer(client, (char *)buffer, CPIXEL_BYTES))
           return FALSE;
 
         color = UncompressCPixel(buffer);
@@ -173,11 +175,11 @@ static rfbBool HandleTRLE(rfbClient *client, int rx, int ry, int rw, int rh) {
           /* every run is read to the start of raw_buffer: buffer_pos bounds the writes */
           buffer = (uint8_t*)(client->raw_buffer);
           /* read color */
-          if (!ReadFromRFBServer(client, (char*)buffer, REALBPP / 8 + 1))
+          if (!ReadFromRFBServer(client, (char*)buffer, CPIXEL_BYTES + 1))
             return FALSE;
           color = UncompressCPixel(buffer);
-          buffer += REALBPP / 8;
-	  buffer_pos += REALBPP / 8;
+          buffer += CPIXEL_BYTES;
+	  buffer_pos += CPIXEL_BYTES;
           /* read run length */
           length = 1;
           while (*buffer == 0xff && buffer_pos < client->raw_buffer_size-1) {
@@ -264,11 +266,11 @@ static rfbBool HandleTRLE(rfbClient *client, int rx, int ry, int rw, int rh) {
           bpp = (type > 4 ? 4 : (type > 2 ? 2 : 1)),
           mask = (1 << bpp) - 1, divider = (8 / bpp);
 
-          if (!ReadFromRFBServer(client, (char *)buffer, type * REALBPP / 8))
+          if (!ReadFromRFBServer(client, (char *)buffer, type * CPIXEL_BYTES))
             return FALSE;
 
           /* read palette */
-          for (i = 0; i < type; i++, buffer += REALBPP / 8)
+          for (i = 0; i < type; i++, buffer += CPIXEL_BYTES)
             palette[i] = UncompressCPixel(buffer);
 
           last_type = type;
@@ -276,11 +278,11 @@ static rfbBool HandleTRLE(rfbClient *client, int rx, int ry, int rw, int rh) {
         } else if (type >= 130) {
           int i;
 
-          if (!ReadFromRFBServer(client, (char *)buffer, (type - 128) * REALBPP / 8))
+          if (!ReadFromRFBServer(client, (char *)buffer, (type - 128) * CPIXEL_BYTES))
             return FALSE;
 
           /* read palette */
-          for (i = 0; i < type - 128; i++, buffer += REALBPP / 8)
+          for (i = 0; i < type - 128; i++, buffer += CPIXEL_BYTES)
             palette[i] = UncompressCPixel(buffer);
 
           last_type = type;
@@ -299,5 +301,6 @@ static rfbBool HandleTRLE(rfbClient *client, int rx, int ry, int rw, int rh) {
 #undef CARDREALBPP
 #undef HandleTRLE
 #undef UncompressCPixel
+#undef CPIXEL_BYTES
 #undef REALBPP
 #undef UNCOMP
